@@ -221,6 +221,9 @@ def run_isar_stream(chk, workdir, n_schemas, c_safe):
         sizes = {m.name: m.numeric_size for n in nodes if isinstance(n, M.Struct) for m in n.members}
         for kind, name, tree, etext, v, env in items:
             icase = dict(casej, item='%s %s' % (kind, name), expression=etext)
+            if not c_safe:
+                # a wrong value propagates to every later expression that uses the name
+                icase['expressions'] = [it[3] for it in items]
             chk.count((syntax, etext, sorted(env.items())), tree[0] in ('bin', 'neg'))
             chk.bump('kind:%s/%s' % (syntax, kind))
             got_calc = sizes.get(name) if kind == 'size' else consts.get(name)
